@@ -684,6 +684,7 @@ func runC09(c *Ctx) {
 	c09Exprs(c) // ---- 2b. value expressions: FormatExp / ParseValExp (c09exp.go)
 	c09Calls(c) // ---- 2c. call statements: CallStm.format / call_stm (c09call.go)
 	c09Decl(c)  // ---- 2d. type names, parameter lists, struct and filetype declarations (c09decl.go)
+	c09Stage(c) // ---- 2e. whole stage declarations: Stage.format / the grammar's stage production (c09stage.go)
 
 	// ---- 3. formatter monitors ----
 	progSeeds, _ := c08LoadSeeds(c)
